@@ -8,6 +8,7 @@ import (
 	"context"
 	"reflect"
 	"sync"
+	"sync/atomic"
 )
 
 type PrintFunc func(any)
@@ -27,6 +28,14 @@ type env struct {
 	doneChan <-chan struct{}
 	doneCase reflect.SelectCase
 
+	// cancel, if not nil, stops the execution of all the goroutines. It is
+	// set when the first goroutine is started by a go statement.
+	cancel context.CancelFunc
+	// failure is the error of the first goroutine, started by a go
+	// statement, that ended with an error. Access to this field must be
+	// done with the mutex mu.
+	failure error
+
 	// Only the callPath field can be changed after the vm has been started
 	// and access to this field must be done with this mutex.
 	mu       sync.Mutex
@@ -42,6 +51,58 @@ func (env *env) CallPath() string {
 
 func (env *env) Context() context.Context {
 	return env.ctx
+}
+
+// cancelable makes the execution cancelable even if there is no context, or
+// the context cannot be canceled, so that a goroutine that ends with an error
+// can stop the others. It is called before the first goroutine is started.
+func (env *env) cancelable() {
+	if env.cancel != nil {
+		return
+	}
+	parent := env.ctx
+	if parent == nil {
+		parent = context.Background()
+	}
+	ctx, cancel := context.WithCancel(parent)
+	env.cancel = cancel
+	env.doneChan = ctx.Done()
+	env.doneCase = reflect.SelectCase{
+		Dir:  reflect.SelectRecv,
+		Chan: reflect.ValueOf(ctx.Done()),
+	}
+}
+
+// fail is called when a goroutine started by a go statement ends with the
+// error err: as an unrecovered panic, a call to Stop or a call to Fatal in
+// the main goroutine, it ends the execution and Run returns, or panics, as if
+// it happened in the main goroutine.
+func (env *env) fail(err error) {
+	env.mu.Lock()
+	if env.failure == nil && atomic.LoadInt32(&env.done) == 0 {
+		env.failure = err
+		atomic.StoreInt32(&env.done, 1)
+		env.cancel()
+	}
+	env.mu.Unlock()
+}
+
+// stopGoroutines stops the goroutines started by go statements. It is called
+// when the main goroutine ends.
+func (env *env) stopGoroutines() {
+	if env.cancel != nil {
+		atomic.StoreInt32(&env.done, 1)
+		env.cancel()
+	}
+}
+
+// failed returns the error of the first goroutine that ended with an error,
+// if there is one.
+func (env *env) failed() error {
+	env.mu.Lock()
+	err := env.failure
+	env.mu.Unlock()
+	return err
 }
 
 func (env *env) Fatal(v any) {
